@@ -782,6 +782,40 @@ fn exercise(data: &[u8]) {
     rd!("rd.icmp6", Icmpv6Header::read);
     rd!("rd.arp", ArpPacket::read);
     rd!("rd.ip", IpHeaders::read);
+    // Ipv6Header's extension skipping helpers: every next_header value as the announced first header
+    for nh in 0..=255u8 {
+        match Ipv6Header::skip_header_extension_in_slice(data, IpNumber(nh)) {
+            Ok((n, rest)) => {
+                sub(&format!("skip1.{nh}.rest"), rest);
+                dbg(&format!("skip1.{nh}.n"), &n.0);
+            }
+            Err(e) => dbg(&format!("skip1.{nh}.err"), &e),
+        }
+        match Ipv6Header::skip_all_header_extensions_in_slice(data, IpNumber(nh)) {
+            Ok((n, rest)) => {
+                sub(&format!("skipa.{nh}.rest"), rest);
+                dbg(&format!("skipa.{nh}.n"), &n.0);
+            }
+            Err(e) => dbg(&format!("skipa.{nh}.err"), &e),
+        }
+        let mut c = std::io::Cursor::new(data);
+        let r = Ipv6Header::skip_header_extension(&mut c, IpNumber(nh)).map(|n| n.0).map_err(|e| e.kind());
+        dbg(&format!("skip1r.{nh}"), &(r, c.position()));
+        let mut c = std::io::Cursor::new(data);
+        let r = Ipv6Header::skip_all_header_extensions(&mut c, IpNumber(nh)).map(|n| n.0).map_err(|e| e.kind());
+        dbg(&format!("skipar.{nh}"), &(r, c.position()));
+    }
+    // deprecated aliases (still public)
+    #[allow(deprecated)]
+    {
+        if let Ok((_, rest)) = Ethernet2Header::read_from_slice(data) { sub("dep.eth.rest", rest); }
+        if let Ok((_, rest)) = SingleVlanHeader::read_from_slice(data) { sub("dep.vlan.rest", rest); }
+        if let Ok((_, rest)) = Ipv4Header::read_from_slice(data) { sub("dep.v4.rest", rest); }
+        if let Ok((_, rest)) = Ipv6Header::read_from_slice(data) { sub("dep.v6.rest", rest); }
+        if let Ok((_, _, rest)) = IpHeaders::read_from_slice(data) { sub("dep.ip.rest", rest); }
+        if let Ok((_, rest)) = UdpHeader::read_from_slice(data) { sub("dep.udp.rest", rest); }
+        if let Ok((_, rest)) = TcpHeader::read_from_slice(data) { sub("dep.tcp.rest", rest); }
+    }
 }
 
 // ---- placements -------------------------------------------------------------
